@@ -9,6 +9,7 @@ import LyModel.Diff.Lemmas13Top
 result back to `A`; `apply_congr` carries this over to `B` itself.
 Core Lean only.
 -/
+set_option linter.unusedSimpArgs false
 namespace LyModel.Diff
 open LyModel LyModel.Tree
 
@@ -156,5 +157,110 @@ theorem reverse_apply_literal {S : Schema} {fx : Fixes} (K : KeyOrder S) (A B : 
     have : normRL S A1 = normRL S A2 := hc
     rw [← normL_of_normRL this]
     exact h3
+
+end LyModel.Diff
+
+namespace LyModel.Diff
+open LyModel LyModel.Tree
+
+/-! ### exactness does not look at what `normN` removes from the data tree -/
+
+theorem instMatch_normN_right (S : Schema) (d x : DNode) : instMatch S d (normN x) = instMatch S d x := by
+  rw [← instMatch_normN S d (normN x), normN_idem, instMatch_normN]
+
+theorem matchP_normN_right (S : Schema) (d x : DNode) : matchP S d (normN x) = matchP S d x := by
+  simp only [matchP, sid_normN, instMatch_normN_right]
+
+theorem find_normL (S : Schema) (c : DNode) : ∀ L : List DNode,
+    (normL13 L).find? (matchP S c) = (L.find? (matchP S c)).map normN
+  | [] => rfl
+  | x :: xs => by
+    simp only [normL13, List.find?_cons, matchP_normN_right]
+    split
+    · rfl
+    · exact find_normL S c xs
+
+theorem goodL_mem {S : Schema} : ∀ {l : List DNode} {x : DNode}, goodL S l = true → x ∈ l → goodN S x = true
+  | [], _, _, h => by simp at h
+  | y :: ys, x, hg, h => by
+    simp only [goodL, Bool.and_eq_true] at hg
+    rcases List.mem_cons.1 h with rfl | h
+    · exact hg.1.1
+    · exact goodL_mem hg.2 h
+
+theorem dataEq_normN_left (x d : DNode) : dataEq true (normN x) d = dataEq true x d := by
+  rw [Bool.eq_iff_iff, dataEq_iff_norm, dataEq_iff_norm, normN_idem]
+
+theorem all_keys_normL (S : Schema) (L : List DNode) (n : Nat) :
+    (keysOf S (normL13 L)).all (fun k => decide (k.sid < n)) = (keysOf S L).all (fun k => decide (k.sid < n)) := by
+  rw [keysOf_normL, normL_eq_map13, List.all_map]
+  apply List.all_congr rfl
+  intro y
+  simp
+
+mutual
+theorem exactE_normN (S : Schema) : ∀ (d : DNode) (inh : Option Op) (e : Option DNode),
+    (∀ x, e = some x → goodN S x = true ∧ x.sid = d.sid) → exactE S inh (e.map normN) d = exactE S inh e d
+  | .inner s f m ks, inh, e, h => by
+    cases e with
+    | none => rfl
+    | some x =>
+      obtain ⟨hgx, _⟩ := h x rfl
+      have hK := exactK_normL S ks (childInhOf (.inner s f m ks) inh) x.kids true (goodN_kids hgx)
+      cases hop : effOp (.inner s f m ks) inh with
+      | none => simp only [Option.map_some, exactE, hop]
+      | some op =>
+        cases op <;> simp only [Option.map_some, exactE, hop, dataEq_normN_left, kids_normN, hK]
+  | .term s f m v, inh, e, h => by
+    cases e with
+    | none => rfl
+    | some x =>
+      obtain ⟨hgx, hsx⟩ := h x rfl
+      cases hdom : domB S (.term s f m v) with
+      | false => simp only [Option.map_some, exactE, hdom, Bool.false_and]
+      | true =>
+        have hd := domB_iff.mp hdom
+        have hx := goodN_dom hgx
+        have hxt : x.isTerm = true := by
+          rw [hx.typed, hsx, ← hd.typed]; rfl
+        cases x with
+        | inner => simp [DNode.isTerm] at hxt
+        | term s' f' m' v' =>
+          cases hop : effOp (.term s f m v) inh with
+          | none => simp only [Option.map_some, exactE, hop]
+          | some op =>
+            have hde := dataEq_normN_left (.term s' f' m' v') (.term s f m v)
+            simp only [normN] at hde
+            cases op <;> simp only [Option.map_some, exactE, hop, hde, normN, DNode.val, DNode.flags]
+theorem exactK_normL (S : Schema) : ∀ (D : List DNode) (inh : Option Op) (L : List DNode) (ld : Bool),
+    goodL S L = true → exactK S inh (normL13 L) ld D = exactK S inh L ld D
+  | [], _, _, _, _ => by simp [exactK]
+  | c :: cs, inh, L, ld, hg => by
+    rw [exactK, exactK]
+    rw [exactK_normL S cs inh L true hg, exactK_normL S cs inh L false hg, find_normL, all_keys_normL,
+      exactE_normN S c inh (L.find? (matchP S c)) (by
+        intro x hx
+        exact ⟨goodL_mem hg (List.mem_of_find?_eq_some hx), matchP_sid (List.find?_some hx)⟩)]
+end
+
+/-- an exact diff for a good tree is an exact diff for every good tree with the same observation -/
+theorem exactDiff_congr_norm {S : Schema} {L L' D : List DNode} (hg : goodL S L = true) (hg' : goodL S L' = true)
+    (h : normL13 L' = normL13 L) : exactDiff S L' D = exactDiff S L D := by
+  unfold exactDiff
+  rw [← exactK_normL S D none L' false hg', h, exactK_normL S D none L false hg]
+
+/-- computed diffs chain: `diff(B, C)` is an exact diff for the tree `diff(A, B)` leads to from `A` -/
+theorem diff_chain_exact (S : Schema) (fx : Fixes) (A B C : List DNode) (hA : wfForest S A = true) (hB : wfForest S B = true)
+    (hC : wfForest S C = true) (hk : KeysDistinguished S (A ++ B)) :
+    ∃ B', apply S A (diff S true A B) fx = .ok B' ∧ goodT S B' = true ∧ normL13 B' = normL13 B ∧
+      exactDiff S B' (diff S true B C) = true := by
+  obtain ⟨B', hB', hnB⟩ := apply_diff_wf S fx A B hA hB hk
+  rw [diffFromPtr_eq_diff S fx A B hA hB] at hB'
+  have hn : normL13 B' = normL13 B := normL_of_normRL (normRL_of_normL hnB)
+  have hgB := goodT_of_wfForest S B hB
+  have hgB' : goodT S B' = true := by rw [goodT_congr_norm hn]; exact hgB
+  refine ⟨B', hB', hgB', hn, ?_⟩
+  rw [exactDiff_congr_norm (goodT_goodL hgB) (goodT_goodL hgB') hn]
+  exact exactDiff_diff S B C hB hC
 
 end LyModel.Diff
